@@ -127,40 +127,44 @@ Proof.
   rewrite (resolve_flds ks _ _ (APar 0) l p) in H by auto.
   unfold hwrite_t in H.
   destruct (hwrite (h1 ++ [VInt 0]) (l, p ++ ks) (VInt z)) as [h2|] eqn:W; try discriminate.
-  cbn [write_thru] in H. rewrite copy_back_nil in H.
+  cbn [write_thru copy_back] in H. cbv beta iota in H.
   assert (E2 : hread h2 (l, p ++ ks) = Some (VInt z)) by (eapply hread_hwrite_same; eauto).
   assert (L2 : length h2 = S (S (length h))).
   { rewrite (hwrite_length _ _ _ _ W). rewrite app_length. simpl. lia. }
   assert (F2 : forall d, fst d < length h -> overlap (l, p ++ ks) d = false -> hread h2 d = hread h d).
   { intros d Ld O. rewrite (hread_hwrite_disjoint _ _ _ _ d W O).
     rewrite hread_alloc by lia. subst h1. apply hread_alloc; auto. }
-  destruct iret as [ie|]; cbn [lift app] in H.
-  - destruct (eval h2 [(l, p)] ie) as [iv|]; try discriminate.
-    cbn [app] in H. rewrite copy_back_nil in H.
-    destruct oret as [oe|]; cbn [lift] in H.
-    + destruct (eval (h2 ++ [iv]) [(length h, [])] oe) as [ov|]; try discriminate.
+  assert (FIN : forall hx, length h2 <= length hx ->
+                 hread hx (l, p ++ ks) = Some (VInt z) ->
+                 (forall d, fst d < length h -> overlap (l, p ++ ks) d = false -> hread hx d = hread h d) ->
+                 forall v, let hy := hx ++ [v] in
+                 length h2 <= length hy /\ hread hy (l, p ++ ks) = Some (VInt z) /\
+                 (forall d, fst d < length h -> overlap (l, p ++ ks) d = false -> hread hy d = hread h d)).
+  { intros hx Lx Ex Fx v hy. unfold hy. repeat split.
+    - rewrite app_length. lia.
+    - rewrite hread_alloc by (simpl; lia). auto.
+    - intros d Ld O. rewrite hread_alloc by lia. auto. }
+  assert (DONE : forall hx, length h2 <= length hx ->
+                 hread hx (l, p ++ ks) = Some (VInt z) ->
+                 (forall d, fst d < length h -> overlap (l, p ++ ks) d = false -> hread hx d = hread h d) ->
+                 hread hx (l, p ++ ks) = Some (VInt z) /\
+                 (forall a', resolve hx [] a' = Some (l, p ++ ks) -> eval hx [] a' = Some (VInt z)) /\
+                 (forall d, fst d < length h -> overlap (l, p ++ ks) d = false -> hread hx d = hread h d)).
+  { intros hx Lx Ex Fx. repeat split; auto. intros a' R'. unfold eval. rewrite R'. auto. }
+  destruct iret as [ie|]; cbn [lift] in H.
+  - destruct (eval h2 _ ie) as [iv|]; try discriminate. cbv beta iota in H.
+    destruct (FIN h2 (le_n _) E2 F2 iv) as [La [Ea Fa]].
+    destruct oret as [oe|]; cbn [lift copy_back] in H; cbv beta iota in H.
+    + destruct (eval _ _ oe) as [ov|]; try discriminate. cbv beta iota in H.
       inversion H; subst; clear H.
-      assert (G1 : hread ((h2 ++ [iv]) ++ [ov]) (l, p ++ ks) = Some (VInt z)).
-      { rewrite hread_alloc by (rewrite app_length; simpl; lia). rewrite hread_alloc by (simpl; lia). auto. }
-      repeat split; auto.
-      * intros a' R'. unfold eval. rewrite R'. auto.
-      * intros d Ld O. rewrite hread_alloc by (rewrite app_length; simpl; lia). rewrite hread_alloc by lia. auto.
-    + inversion H; subst; clear H.
-      assert (G1 : hread (h2 ++ [iv]) (l, p ++ ks) = Some (VInt z)) by (rewrite hread_alloc by (simpl; lia); auto).
-      repeat split; auto.
-      * intros a' R'. unfold eval. rewrite R'. auto.
-      * intros d Ld O. rewrite hread_alloc by lia. auto.
-  - cbn [app] in H. rewrite copy_back_nil in H.
-    destruct oret as [oe|]; cbn [lift] in H.
-    + destruct (eval h2 [(length h, [])] oe) as [ov|]; try discriminate.
+      destruct (FIN _ La Ea Fa ov) as [Lb [Eb Fb]]. apply DONE; auto.
+    + inversion H; subst; clear H. apply DONE; auto.
+  - cbv beta iota in H.
+    destruct oret as [oe|]; cbn [lift copy_back] in H; cbv beta iota in H.
+    + destruct (eval _ _ oe) as [ov|]; try discriminate. cbv beta iota in H.
       inversion H; subst; clear H.
-      assert (G1 : hread (h2 ++ [ov]) (l, p ++ ks) = Some (VInt z)) by (rewrite hread_alloc by (simpl; lia); auto).
-      repeat split; auto.
-      * intros a' R'. unfold eval. rewrite R'. auto.
-      * intros d Ld O. rewrite hread_alloc by lia. auto.
-    + inversion H; subst; clear H.
-      repeat split; auto.
-      intros a' R'. unfold eval. rewrite R'. auto.
+      destruct (FIN h2 (le_n _) E2 F2 ov) as [Lb [Eb Fb]]. apply DONE; auto.
+    + inversion H; subst; clear H. apply DONE; auto.
 Qed.
 
 (* ---------------------------------------------------------------- 4. arguments with dereferences: normalisation *)
